@@ -221,7 +221,7 @@ Definition render_struct_line (f : fview) (c : ictx) (hint : type_hint) (idx : n
         Ok (if c_post_init c then [TIdent "obj"; dot; member_tok (MIndex idx); P1 "="] ++ obj ++ [TIdent ident; semi]
             else obj ++ [TIdent ident; comma])
       else if is_into_existing k && hint_eqb hint HTuple then
-        Ok ([TIdent "other"; dot; member_tok (MIndex idx); P1 "="] ++ obj ++ [TIdent ident; semi])
+        Ok ([TIdent "other"; dot] ++ get_field_path (MIndex idx) ++ [P1 "="] ++ obj ++ [TIdent ident; semi])
       else if is_from k && negb (hint_eqb hint HTuple) then
         if fv_has_parent f then Ok ([TIdent ident; P1 ":"] ++ parent_conv c ++ [comma])
         else Ok ([TIdent ident; P1 ":"] ++ obj ++ get_field_path fm ++ [comma])
@@ -234,7 +234,7 @@ Definition render_struct_line (f : fview) (c : ictx) (hint : type_hint) (idx : n
         if c_post_init c then Ok ([TIdent "obj"; dot; member_tok (MIndex idx); P1 "="] ++ obj ++ [member_tok (MIndex index); semi])
         else Ok (obj ++ [if is_variant c then TIdent (f_ident index) else member_tok (MIndex index); comma])
       else if is_into_existing k && hint_tu hint then
-        Ok ([TIdent "other"; dot; member_tok (MIndex idx); P1 "="] ++ obj ++ [member_tok (MIndex index); semi])
+        Ok ([TIdent "other"; dot] ++ get_field_path (MIndex idx) ++ [P1 "="] ++ obj ++ [member_tok (MIndex index); semi])
       else if is_from k && negb (hint_eqb hint HStruct) then
         if fv_has_parent f then Ok (parent_conv c ++ [comma])
         else
